@@ -21,3 +21,13 @@ for cfg in ("default", "explanations", "checks", "checks_explanations"):
         out.setdefault("%s::%s" % (file, name), sig)
 json.dump(out, open("/verif/anchors.json", "w"), indent=0, sort_keys=True)
 print(len(out), "anchors")
+# fields of the library's own structs / enum variants (name, type): a renamed private field is found again by its type
+adts = {}
+for cfg in ("default", "explanations", "checks", "checks_explanations"):
+    crate = mir.Crate(facts.load(cfg, "slotted_egraphs"), use_anchors=False)
+    for path, a in crate.adts.items():
+        if not (a.get("file") or "").startswith("src/"):
+            continue
+        adts.setdefault(path, [[v["name"], [[f["name"], f["ty"]] for f in v["fields"]]] for v in a["variants"]])
+json.dump(adts, open("/verif/anchors_adts.json", "w"), indent=0, sort_keys=True)
+print(len(adts), "adts")
